@@ -755,11 +755,11 @@ func verifC12Burst() {
 		if v >= 1 && int(v) <= n {
 			seen[v]++
 		} else {
-			verifAssert("C12.burst.intact", false)
+			verifAssert("C12.burst.intact|C19.burst.intact", false)
 		}
 	}
 	for i := 1; i <= n; i++ {
-		verifAssert("C12.burst.exactly-once", seen[i] == 1)
+		verifAssert("C12.burst.exactly-once|C19.burst.exactly-once", seen[i] == 1)
 	}
 	h1.Close()
 	h2.Close()
@@ -1249,11 +1249,11 @@ func VH_C13_concurrent_first_listens() {
 				<-start // all callers are released together
 				if packet {
 					h, err := lm.ListenPacket("127.0.0.1:9311")
-					verifAssert("C13.first-listens.both-succeed", err == nil)
+					verifAssert("C13.first-listens.both-succeed|C12.first-listens.share-one-socket|C19.first-listens.share-one-socket", err == nil)
 					done <- h
 				} else {
 					h, err := lm.ListenStream("127.0.0.1:9311")
-					verifAssert("C13.first-listens.both-succeed", err == nil)
+					verifAssert("C13.first-listens.both-succeed|C12.first-listens.share-one-socket|C19.first-listens.share-one-socket", err == nil)
 					done <- h
 				}
 			}()
